@@ -23,8 +23,9 @@ class LazyWaveMap(SymDict):
     tied to the capability fields by the representation invariant (a present key's mode is supported and its
     temperature lies inside [min, max])"""
 
-    def __init__(self, path, supported, tmin, tmax):
+    def __init__(self, path, supported, tmin, tmax, tag=""):
         SymDict.__init__(self)
+        self.tag = tag
         self.path, self.supported, self.tmin, self.tmax = path, supported, tmin, tmax
         self.touched = []
 
@@ -33,7 +34,7 @@ class LazyWaveMap(SymDict):
             raise E.Unsupported("symbolic IR key")
         if key in self.entries:
             return self.entries[key]
-        g = SymBool(self.path.fresh_bool("has_" + key))
+        g = SymBool(self.path.fresh_bool(self.tag + "has_" + key))
         body = key[3:] if key.startswith("on_") else key
         inv = []
         mode = {v: k for k, v in MODE_CMD.items()}.get(body[0:2])
@@ -48,8 +49,8 @@ class LazyWaveMap(SymDict):
                 g = False
             elif c is not True:
                 self.path.constrain(bterm(c))
-        val = {"Para": SymSeq("str", [Blob(key + "_P", "raw", A.fresh_int(self.path, "len_" + key + "_P", 0, 1000))]),
-               "HexCode": SymSeq("str", [Blob(key + "_H", "raw", A.fresh_int(self.path, "len_" + key + "_H", 0, 1000))])}
+        val = {"Para": SymSeq("str", [Blob(self.tag + key + "_P", "raw", A.fresh_int(self.path, self.tag + "len_" + key + "_P", 0, 1000))]),
+               "HexCode": SymSeq("str", [Blob(self.tag + key + "_H", "raw", A.fresh_int(self.path, self.tag + "len_" + key + "_H", 0, 1000))])}
         self.entries[key] = (g, val)
         self.touched.append(key)
         return self.entries[key]
@@ -70,8 +71,8 @@ def make_remote(path, remotes, dev, case):
     if case.get("no_temps"):
         R._min_temp, R._max_temp = 100, -100
     else:
-        tmin = A.fresh_int(path, "min_temp", lo, hi)
-        tmax = A.fresh_int(path, "max_temp", lo, hi)
+        tmin = A.fresh_int(path, case.get("tag", "") + "min_temp", lo, hi)
+        tmax = A.fresh_int(path, case.get("tag", "") + "max_temp", lo, hi)
         path.assume(bterm(tmin <= tmax))
         R._min_temp, R._max_temp = tmin, tmax
     R._on_off_type = bool(case["toggle"])
@@ -80,7 +81,7 @@ def make_remote(path, remotes, dev, case):
     supported = case["supported"]
     R._modes_features = {getattr(dev.ThermostatMode, m): {"swing": False, "fan_levels": set(), "temperature_control": False}
                          for m in MODES if m in supported}
-    R._ir_wave_map = LazyWaveMap(path, supported, R._min_temp, R._max_temp)
+    R._ir_wave_map = LazyWaveMap(path, supported, R._min_temp, R._max_temp, tag=case.get("tag", ""))
     return R
 
 
@@ -123,6 +124,15 @@ def run_case(case, eng, res):
 
     def body(path):
         timeenv.setup(path)
+        if case.get("after_other"):
+            # another remote (its own key coverage) answered the same request earlier in this process
+            other = make_remote(path, remotes, dev, dict(case, tag="o_"))
+            t0 = A.fresh_int(path, "o_target", -5, 70)
+            try:
+                other.build_command(state, mode, t0, fan, swing, prev)
+            except Exception:  # noqa: BLE001
+                pass
+            path.notes["other"] = (other, t0)
         R = make_remote(path, remotes, dev, case)
         target = A.fresh_int(path, "target", -5, 70)
         info = dict(R=R, target=target)
@@ -233,8 +243,12 @@ def ir_set_json(m, case, R):
 
 
 def c15_replay(path, m, case, info, oracle="C15"):
-    return {"kind": "c15", "case": case, "ir_set": ir_set_json(m, case, info["R"]), "target": C.ev_int(m, info["target"]),
-            "oracle": oracle}
+    d = {"kind": "c15", "case": case, "ir_set": ir_set_json(m, case, info["R"]), "target": C.ev_int(m, info["target"]),
+         "oracle": oracle}
+    if "other" in path.notes:
+        other, t0 = path.notes["other"]
+        d["other"] = {"ir_set": ir_set_json(m, case, other), "target": C.ev_int(m, t0)}
+    return d
 
 
 # ------------------------------------------------------------------------------- capabilities
@@ -362,6 +376,10 @@ def main(tier):
                           "supported": sup, "trange": trange})
     cases.append({"kind": "build", "toggle": 0, "state": "ON", "prev": None, "mode": "COOL", "fan": "LOW", "swing": "ON",
                   "supported": MODES, "no_temps": True})
+    for mode in ("COOL", "AUTO"):
+        for swing in ("ON", "OFF"):
+            cases.append({"kind": "build", "toggle": 0, "state": "ON", "prev": None, "mode": mode, "fan": "LOW", "swing": swing,
+                          "supported": MODES, "trange": [16, 17], "after_other": True})
     for sw in ("ON", "OFF"):
         cases.append({"kind": "swing", "toggle": 0, "state": "ON", "prev": None, "mode": "COOL", "fan": "LOW", "swing": sw,
                       "supported": MODES, "separated": True, "trange": trange})
